@@ -1,8 +1,10 @@
 package main
 
 import (
+	"bytes"
 	"fmt"
 	"go/ast"
+	"go/printer"
 	"go/token"
 	"sort"
 	"strings"
@@ -38,8 +40,8 @@ type symState struct {
 }
 
 type stepTrans struct {
-	vt      *vtrans // for partiality of value methods
-	failed  string
+	vt     *vtrans // for partiality of value methods
+	failed string
 }
 
 func (sx *symState) clone() *symState {
@@ -577,6 +579,54 @@ func genSteps(repo string, vt *vtrans) string {
 	for _, s := range skipped {
 		sb.WriteString("   " + s + "\n")
 	}
-	sb.WriteString("*)\n")
+	sb.WriteString("*)\n\n")
+	sb.WriteString(genStamp(repo))
 	return sb.String()
+}
+
+// genStamp translates the loop at the end of (*compiler).compile that gives every instruction emitted for a node
+// the node's position.  Only the exact shape below is accepted (a change of the loop is a translator failure,
+// i.e. a broken obligation of C20): every instruction of res, in order, whose Pos is still zero gets newPos(tok).
+func genStamp(repo string) string {
+	f := parseFile(repo + "/compiler.go")
+	fn := findMethod(f, "compiler", "compile")
+	if fn == nil {
+		fatalf(f.Pos(), "compiler.compile not found")
+	}
+	var loop *ast.RangeStmt
+	for _, st := range fn.Body.List {
+		if r, ok := st.(*ast.RangeStmt); ok && exprString(r.X) == "res" {
+			loop = r
+		}
+	}
+	if loop == nil {
+		fatalf(fn.Pos(), "compile: the position-stamping loop over res was not found at the top level of the function body")
+	}
+	var buf bytes.Buffer
+	printer.Fprint(&buf, token.NewFileSet(), loop)
+	got := strings.Join(strings.Fields(buf.String()), " ")
+	want := "for n, i := range res { if !i.Pos.IsZero() { continue } res[n].Pos = newPos(c.Globals, tok.Pos.Filename, c.FuncName, tok.Pos.Line, tok.Pos.Column) }"
+	if got != want {
+		fatalf(loop.Pos(), "compile: the position-stamping loop has an unexpected shape:\n  %s\nexpected\n  %s", got, want)
+	}
+	// nothing after the loop may touch res except `return res` (and the depth counter)
+	seen := false
+	for _, st := range fn.Body.List {
+		if st == ast.Stmt(loop) {
+			seen = true
+			continue
+		}
+		if !seen {
+			continue
+		}
+		var b2 bytes.Buffer
+		printer.Fprint(&b2, token.NewFileSet(), st)
+		t := strings.Join(strings.Fields(b2.String()), " ")
+		if t != "c.depth--" && t != "return res" {
+			fatalf(st.Pos(), "compile: unexpected statement after the position-stamping loop: %s", t)
+		}
+	}
+	return "(* the loop at the end of (*compiler).compile, /repo/compiler.go: p is newPos(tok) *)\n" +
+		"Definition stamp_gen (p : Z) (res : list instr) : list instr :=\n" +
+		"  map (fun i => if ipos i =? 0 then mkI (icode i) (iA i) (iB i) (iC i) p else i) res.\n"
 }
